@@ -10,7 +10,9 @@ Inductive cop :=
   | CDelete (au : N) (k : bytes) (now : N)
   | CFlush
   | CSnap                                  (* a read through snapshot() / snapshot_owned(): list_namespaces, list_authors, get_many, content_hashes *)
-  | CFailingModify.                        (* a store call refused inside modify(): set_download_policy for a document that does not exist *)
+  | CFailingModify                         (* a store call refused inside modify(): set_download_policy for a document that does not exist *)
+  | CRemove                                (* remove_replica of the (closed) document: one modify() over six tables *)
+  | CImport.                               (* import_namespace of the document again *)
 
 Record probe := mkProbe {
   p_op : N;                                 (* crash right after operation number p_op (from 0) ... *)
@@ -19,12 +21,14 @@ Record probe := mkProbe {
   p_content : list entry;                   (* get_many(all, include_empty) by author *)
   p_bykey : list entry;                     (* the same through the by-key index *)
   p_heads : list (N * N);
-  p_exact_ok : bool }.                      (* get_exact agrees for every entry read *)
+  p_exact_ok : bool;                        (* get_exact agrees for every entry read *)
+  p_listed : bool }.                        (* list_namespaces names the document *)
 
 Record case := mkCase {
   c_ns : N;
   c_ops : list cop;
   c_boundaries : list (list entry);         (* live content after 0, 1, 2, ... complete operations *)
+  c_listed : list bool;                     (* ... and whether the document is listed there *)
   c_probes : list probe }.
 
 Definition entry_of (ns : N) (o : cop) : option entry :=
@@ -32,13 +36,15 @@ Definition entry_of (ns : N) (o : cop) : option entry :=
   | CRemote e => Some e
   | CInsert au k h l now => Some (mkE ns au k now l h)
   | CDelete au k now => Some (mkE ns au k now 0 EHASH)
-  | CFlush | CSnap | CFailingModify => None
+  | CFlush | CSnap | CFailingModify | CRemove | CImport => None
   end.
 (** local writes do not read the download policy afterwards *)
 Definition micro_of (ns : N) (T : tables) (o : cop) : list micro :=
   match o with
   | CFlush | CSnap => [MCommit]
   | CFailingModify => [MModify (fun T => T)]     (* the closure fails: nothing is written, the transaction stays open *)
+  | CRemove => [MModify (fun T => remove_replica T ns)]
+  | CImport => [MModify (fun T => fst (import_namespace T ns (Some 0)))]
   | CRemote e => MTables (* open_replica *) :: put_micro KS EHASH T e
   | _ => match entry_of ns o with
          | Some e => MTables (* open_replica *) ::
@@ -93,14 +99,17 @@ Definition check (c : case) : N :=
   let m1 := forallb (fun p =>
               let D := model_probe ns s0 (c_ops c) p in
               p_opened p && list_eqb entry_eqb (fs_all ns D) (p_content p)
-              && list_eqb nn_eqb (heads_of D ns) (p_heads p)) (c_probes c) in
+              && list_eqb nn_eqb (heads_of D ns) (p_heads p)
+              && Bool.eqb (p_listed p) (match get_cap D ns with Some _ => true | None => false end)) (c_probes c) in
   let m2 := forallb (fun p =>
               p_opened p && p_exact_ok p
               (* a state the live store passed through between two complete operations, not later than the crash *)
               (* ... and not earlier than the last flush (flushed data survives) *)
-              && existsb (fun b => list_eqb entry_eqb b (p_content p))
+              && existsb (fun b => list_eqb entry_eqb (fst b) (p_content p) && Bool.eqb (snd b) (p_listed p))
                          (skipn (last_flush (c_ops c) (N.to_nat (p_op p)) 0 0)
-                                (firstn (S (S (N.to_nat (p_op p)))) (c_boundaries c)))
+                                (firstn (S (S (N.to_nat (p_op p)))) (combine (c_boundaries c) (c_listed c))))
+              (* a document that is not listed shows nothing at all *)
+              && (p_listed p || match p_content p, p_heads p, p_bykey p with [], [], [] => true | _, _, _ => false end)
               (* the tables agree with each other *)
               && set_eqb (p_bykey p) (p_content p)
               && list_eqb nn_eqb (p_heads p) (heads_of_content (p_content p))) (c_probes c) in
